@@ -125,6 +125,7 @@ impl Pipe {
             Finish::Drop | Finish::Panic => ExpResp { status: vec![500], delivered_k: None, head: is_head, interims: 0 },
             Finish::Upgrade { .. } => ExpResp { status: vec![101], delivered_k: None, head: false, interims: 0 },
             Finish::WriterNothing => ExpResp { status: vec![], delivered_k: None, head: false, interims: 0 },
+            Finish::RespondBrokenBody { .. } => ExpResp { status: vec![200], delivered_k: None, head: false, interims: 0 },
         };
         self.exp_delivered.push(ExpDelivered { wire_idx: self.reqs.len() - 1, body: designated, body_length: len });
         let nothing = plan.finish == Finish::WriterNothing;
